@@ -337,6 +337,10 @@ def main():
         if pid not in CHECKS:
             continue
         cat, tech, text, note, ref = CHECKS[pid]
+        import re
+        m = re.search(r'^LEVEL\s*=\s*"(\w+)"', open(os.path.join(VERIF, "checks", pid.lower() + ".py")).read(), re.M)
+        if m:
+            cat = m.group(1)   # the evidence file is written with the module's LEVEL
         checks.append(
             {
                 "property_id": pid,
